@@ -428,6 +428,24 @@ def lib_formats():
     return out
 
 
+def macro_formats():
+    """[(file, format literal)]: every literal format string of macros/src/types/{enum,named,tuple}.rs, in source order
+    (format strings with inline `{name}` arguments are kept as they are)"""
+    out = []
+    for rel in ("macros/src/types/enum.rs", "macros/src/types/named.rs", "macros/src/types/tuple.rs"):
+        src = read(rel)
+        for m in re.finditer(r"format!\s*\(", src):
+            call, _ = balanced(src, m.end() - 1, "(", ")")
+            lit = first_literal(call)
+            if lit is None or not call.lstrip().startswith(("\"", "r#", "r\"")):
+                raise TranslatorError("format! without a literal format string in %s" % rel)
+            text = rust_str_literal(lit)
+            # inline arguments (`{text}`) are holes like `{}`; `{{` / `}}` stay
+            text = re.sub(r"(?<!\{)\{[A-Za-z_][A-Za-z_0-9]*\}(?!\})", "{}", text)
+            out.append((os.path.basename(rel), text))
+    return out
+
+
 def documented_serde_keys():
     src = read("ts-rs/src/lib.rs")
     m = re.search(r"//! ## serde compatability(.*?)\n//! ##", src, re.S) or re.search(r"serde-compat(.*?)Supported serde attributes:(.*?)\n//!\s*\n//! ", src, re.S)
@@ -485,6 +503,8 @@ def generate():
                     "compat": lambda: "VCompat"}[a[0]]()
         L.append("Definition validity_rows_%s : list (list vatom * str) :=\n  %s." % (pos, coq_list(
             ["(%s, %s)" % (coq_list([atom(a) for a in atoms]), coq_str(msg)) for atoms, msg in rows], sep=";\n   ")))
+    L.append("Definition macro_formats : list (str * str) :=\n  %s." % coq_list(
+        ["(%s, %s)" % (coq_str(f), coq_str(lit)) for f, lit in macro_formats()], sep=";\n   "))
     L.append("Definition lib_formats : list (str * str * str) :=\n  %s." % coq_list(
         ["(%s, %s, %s)" % (coq_str(c), coq_str(f), coq_str(lit)) for c, f, lit in lib_formats()], sep=";\n   "))
     for pos, rows in sorted(merge_rows().items()):
